@@ -142,14 +142,14 @@ type ConverterGenerator struct {
 	// Since several options can represent with a single path, it allows us to not have "duplicates".
 	generatedPaths map[string]struct{}
 
-	listOfDisjunctionOptions map[string][]ast.Option
+	listOfDisjunctionOptions *orderedmap.Map[string, []ast.Option]
 }
 
 func NewConverterGenerator(nullableTypes NullableConfig) *ConverterGenerator {
 	return &ConverterGenerator{
 		nullableTypes:            nullableTypes,
 		generatedPaths:           make(map[string]struct{}),
-		listOfDisjunctionOptions: make(map[string][]ast.Option),
+		listOfDisjunctionOptions: orderedmap.New[string, []ast.Option](),
 	}
 }
 
@@ -170,9 +170,9 @@ func (generator *ConverterGenerator) FromBuilder(context Context, builder ast.Bu
 		return generator.convertOption(context, converter, option)
 	})
 
-	for _, opts := range generator.listOfDisjunctionOptions {
+	generator.listOfDisjunctionOptions.Iterate(func(_ string, opts []ast.Option) {
 		converter.Mappings = append(converter.Mappings, generator.convertListOfDisjunctionOptions(context, converter, opts))
-	}
+	})
 
 	converter.Mappings = tools.Filter(converter.Mappings, func(mapping ConversionMapping) bool {
 		return len(mapping.Options) != 0
@@ -239,7 +239,7 @@ func (generator *ConverterGenerator) convertOption(context Context, converter Co
 	// we need to treat it differently
 	if mapping.RepeatFor != nil && generator.isAssignmentFromDisjunctionStruct(context, assignments[0]) {
 		path := assignments[0].Path.String()
-		generator.listOfDisjunctionOptions[path] = append(generator.listOfDisjunctionOptions[path], option)
+		generator.listOfDisjunctionOptions.Set(path, append(generator.listOfDisjunctionOptions.Get(path), option))
 		return ConversionMapping{}
 	}
 
